@@ -15,7 +15,7 @@ import ElaVerif.Model.Sha256
 namespace ElaVerif.WireDriver
 open ElaVerif.Bytes ElaVerif.Wire ElaVerif.WireSchemas ElaVerif.Tx
 
-def baseOverhead : Nat := 4096
+def baseOverhead : Nat := 16384
 
 def hexDigit? (c : Char) : Option Nat :=
   if '0' ≤ c ∧ c ≤ '9' then some (c.toNat - '0'.toNat)
@@ -50,6 +50,9 @@ def schema? (name : String) (pv : Nat) : Option Ty :=
   | "header" => some header
   | "auxpow" => some auxPow
   | "confirm" => some confirm
+  | "inv" => some invMsg
+  | "getblocks" => some getBlocksMsg
+  | "addr" => some addrMsg
   | "coinbase" => some coinBase
   | "transferasset" => some transferAsset
   | "producerinfo" => some (producerInfo pv)
